@@ -137,7 +137,7 @@ U2_FIXED = {
 }
 U2_RANDOM = ["phase_gate", "scalar", "phase_x_su2", "phase_x_boundary", "i_x_su2", "near_scalar"]
 REAL_FAMILIES = {"I", "-I", "iY", "RY(pi)", "RY(pi)_fp", "RY(pi/2)", "real_rot", "real_near_2pi", "X", "Z", "H",
-                 "near_minusI_real"}
+                 "near_minusI_real", "real_rot_2pi_fp"}
 
 
 def angle(rng, lo=0.15, hi=3.0):
@@ -184,10 +184,28 @@ def su2_random(rng, fam):
 
 
 def near_minus_identity_real(rng):
-    """real rotations within 5e-6 of RY(2 pi) = -I, incl. RY(2 pi) as computed in floating point"""
-    eps = [0.0, 1e-7, 1e-6, 4e-6][int(rng.integers(4))]
+    """real rotations RY(t), 0 < |t - 2 pi| <= 4e-6 (exactly special unitary, 5e-8..2e-6 away from -I)"""
+    eps = [1e-7, 1e-6, 4e-6][int(rng.integers(3))]
     sign = 1 if rng.random() < 0.5 else -1
     return ry(sign * (2 * np.pi - eps))
+
+
+def scalar_up_to_rounding(rng, with_phase):
+    """products that are a scalar matrix in exact arithmetic and differ from it by rounding errors (1e-16) only"""
+    a, b, c = (float(x) for x in rng.uniform(0.3, 3.0, 3))
+    m = rz(a) @ ry(b) @ rz(c)
+    kind = int(rng.integers(4))
+    if kind == 0:
+        out = m @ m.conj().T
+    elif kind == 1:
+        out = -(m @ m.conj().T)
+    elif kind == 2:
+        out = m @ (rz(-c) @ ry(-b) @ rz(-a))
+    else:
+        out = rx(2 * np.pi)
+    if with_phase:
+        out = np.exp(1j * float(rng.uniform(0.3, 2.5))) * out
+    return out
 
 
 def u2_random(rng, fam):
@@ -218,6 +236,12 @@ def make_matrix(rng, fam):
         return su2_random(rng, fam)
     if fam == "near_minusI_real":
         return near_minus_identity_real(rng)
+    if fam == "real_rot_2pi_fp":
+        return ry(2 * np.pi if rng.random() < 0.5 else -2 * np.pi)
+    if fam == "scalar_up_to_rounding":
+        return scalar_up_to_rounding(rng, False)
+    if fam == "phase_scalar_up_to_rounding":
+        return scalar_up_to_rounding(rng, True)
     return u2_random(rng, fam)
 
 
@@ -231,8 +255,10 @@ def matrix_group(fam):
         return "su2_general"
     if fam in SU2_RANDOM:
         return "su2_near_boundary"
-    if fam == "near_minusI_real":
+    if fam in ("near_minusI_real", "real_rot_2pi_fp"):
         return "su2_real_within_5e-6_of_-I"
+    if fam in ("scalar_up_to_rounding", "phase_scalar_up_to_rounding"):
+        return "scalar_up_to_rounding"
     if fam in U2_FIXED:
         return "u2_named"
     return "u2_phase"
@@ -619,11 +645,17 @@ def gen_cu(ctx, deep):
             for _ in range(8 if deep else 3):
                 cs = None if rng.random() < 0.2 else cs_string(k, int(rng.integers(1 << k)))
                 cu_case(ctx, cls, k, cs, fams[int(rng.integers(len(fams)))], entry="static")
-    # real rotations within 5e-6 of -I (RY(2 pi) in floating point): loss of significance in Ldmcsu._compute_gate_a
-    for cls in ("Ldmcsu", "Mcg", "LdMcSpecialUnitary", "Ldmcu", "Qdmcu"):
-        for k in (2, 3, 4):
-            for _ in range(3 if deep else 1):
-                cu_case(ctx, cls, k, cs_string(k, int(rng.integers(1 << k))), "near_minusI_real")
+    # numerically delicate inputs that are exactly admissible: real rotations within 5e-6 of -I (loss of significance
+    # in Ldmcsu._compute_gate_a), RY(2 pi) as computed in floating point, scalar matrices up to rounding (eig in
+    # Ldmcu._gate_u)
+    for cls in CLASSES:
+        delicate = ["near_minusI_real", "real_rot_2pi_fp", "scalar_up_to_rounding"]
+        if cls in ("Ldmcu", "Qdmcu", "Mcg"):
+            delicate.append("phase_scalar_up_to_rounding")
+        for fam in delicate:
+            for k in (1, 2, 3, 4):
+                for _ in range(3 if deep else 1):
+                    cu_case(ctx, cls, k, cs_string(k, int(rng.integers(1 << k))), fam)
     # Mcg(up_to_diagonal=True)
     su2_pick = ["general", "iX", "real_rot", "diag", "-I"]
     u2_pick = ["X", "phase_gate", "phase_x_su2", "H", "scalar"]
@@ -650,7 +682,7 @@ def make_rotations(rng, fam, nt):
             ax = ["x", "y", "z"][int(rng.integers(3))]
             th = BOUNDARY_ANGLES[int(rng.integers(len(BOUNDARY_ANGLES)))]
             if ax == "y" and abs(th) == 2 * np.pi:
-                th = np.pi                       # RY(2 pi) belongs to the family near_minusI_real
+                th = np.pi                       # RY(2 pi) is generated in the family near_minusI_real
         elif fam == "near_boundary":
             ax = ["x", "y", "z"][int(rng.integers(3))]
             th = [0.0, np.pi, 2 * np.pi][int(rng.integers(3))] + (1e-3 if rng.random() < 0.5 else -1e-3)
@@ -718,6 +750,10 @@ def mcu_matrix(rng, fam):
     if fam == "scalar_pos":
         a = float(rng.uniform(0.2, 3.0))
         return np.exp(1j * a) * I2, a
+    if fam == "scalar_pos_rounding":        # e^{ia} I up to rounding errors
+        a = float(rng.uniform(0.5, 2.5))
+        m = rz(angle(rng)) @ ry(angle(rng)) @ rz(angle(rng))
+        return np.exp(1j * a) * (m @ m.conj().T), a
     v = rz(angle(rng)) @ ry(angle(rng)) @ rz(angle(rng))
     if fam == "two_pos_angles":
         a = float(rng.uniform(0.5, 3.0))
@@ -782,6 +818,9 @@ def gen_mcu(ctx, deep):
             mcu_case(ctx, k, None, ["X", "phase_gate_pos", "conj_pos_dominant"][b % 3], b)
     for k in range(2, 6):
         mcu_case(ctx, k, cs_string(k, int(rng.integers(1 << k))), "two_pos_angles", 1 + int(rng.integers(k)), entry="static")
+    for k in range(2, 6):
+        for b in range(2, k + 1):
+            mcu_case(ctx, k, cs_string(k, int(rng.integers(1 << k))), "scalar_pos_rounding", b)
 
 
 def evaluate(ctx, deep):
